@@ -1007,6 +1007,16 @@ impl Ctx {
                 self.race(c.parse().unwrap(), nw.parse().unwrap(), rounds.parse().unwrap());
                 return;
             }
+            ["subdir", name] => {
+                // the data directory gets a name of the operator's choosing (characters that mean
+                // something in a URI, a query or an SQL string included); SQLite only
+                if self.backend == Backend::Sqlite {
+                    let base = self.data_dir();
+                    self.keep_dir = Some(base.join(name));
+                    self.open(false);
+                }
+                return;
+            }
             ["raw"] => {
                 self.raw = true;
                 self.open(true);
